@@ -178,6 +178,8 @@ def gen_top(rng):
         elif c < 0.7:
             comps.append(["DecInt"])
             comps.append(["FixStr", rng.choice(["/", ";", "x"])])
+        elif c < 0.74:
+            comps.append(["MultiDigit", *rng.choice([(6, 2), (3, 3), (2, 5), (36, 1)])])
         elif c < 0.80:
             comps.append(["Rooms"])
         elif c < 0.90:
